@@ -247,6 +247,21 @@ fn gen_file(rng: &mut Rng, pool: &[IpAddr], bad: &[IpAddr]) -> (Option<Vec<u8>>,
             b.extend_from_slice(b"\n127.0.0.2\n");
             return (Some(b), "not_utf8");
         }
+        5 => {
+            // a long file: a few addresses, then padding (blank / white-space / repeated comment lines) up to just
+            // before a 4 KiB or 8 KiB boundary, then more addresses — one of them straddling the boundary
+            let mut s = String::new();
+            for _ in 0..rng.below(3) { let a = *rng.pick(pool); s.push_str(&render_addr(rng, a)); s.push('\n'); }
+            let boundary = *rng.pick(&[4096usize, 4096, 8192]);
+            let stop = boundary - rng.below(14) as usize;
+            while s.len() + 12 < stop {
+                match rng.below(4) { 0 => s.push('\n'), 1 => s.push_str("   \n"), 2 => s.push_str("\t\n"), _ => s.push_str("# uplinks\n") }
+            }
+            while s.len() < stop { s.push(' '); }
+            for _ in 0..rng.range(1, 3) { let a = *rng.pick(pool); s.push_str(&render_addr(rng, a)); s.push('\n'); }
+            if rng.chance(1, 3) { let a = *rng.pick(bad); s.push_str(&render_addr(rng, a)); s.push('\n'); }
+            return (Some(s.into_bytes()), "long");
+        }
         _ => {}
     }
     let n = *rng.pick(&[1usize, 1, 2, 2, 3, 3, 4, 5, 6]);
@@ -481,7 +496,7 @@ async fn one_case(run: &mut Run, rng: &mut Rng, tmp: &Path, knobs: &Knobs, v6_ok
             obs.push(format!("ObsStep (Some {}) [] {} {}", analysis_lit(&res), before, after));
             run.count(match &res { IpReload::Apply { .. } => "op:sighup_apply", _ => "op:sighup_refuse" });
             match tag { "missing" => run.count("file:missing"), "empty" => run.count("file:empty"), "blank" => run.count("file:blank"),
-                        "garbage" => run.count("file:garbage"), "not_utf8" => run.count("file:not_utf8"), _ => run.count("file:mixed") }
+                        "garbage" => run.count("file:garbage"), "not_utf8" => run.count("file:not_utf8"), "long" => run.count("file:long(>=4KiB)"), _ => run.count("file:mixed") }
         } else if r < 88 {
             // ---- housekeeping arm: apply what is queued
             let extra = pick_fail(rng, &pool);
